@@ -459,7 +459,7 @@ def build_replay(pid, unit):
     objs = []
     for cs in rp.get('c_sources', []):
         o = os.path.join(outdir, os.path.basename(cs) + '.o')
-        rc, so, se, _ = run(['gcc', '-O1', '-w', '-c', os.path.join(REPO, cs), '-o', o] + inc, 600)
+        rc, so, se, _ = run(['gcc', '-O1', '-w'] + rp.get('cflags', []) + ['-c', os.path.join(REPO, cs), '-o', o] + inc, 600)
         if rc != 0:
             return ('build-failed', (so + se)[-3000:])
         objs.append(o)
